@@ -18,11 +18,11 @@
     debug assertions cannot fire; the question cursor (C03_question_cursor) yields one item at offset
     12 whose name, type and class are the declarative decoding of the question, then stops.
 
-    Not covered by a theorem: the EDNS option cursor (decided on every run by the correspondence and
-    the independent reference decoder). *)
+    The EDNS option cursor (C03_option_cursor) yields exactly the options that tile the OPT data, code
+    and payload of each, as many as the object's option count says; nothing when there is no OPT. *)
 From DV Require Import Model.Base Model.NameCheck Model.Parser Model.Header Model.Readers
   Spec.NameSpec Spec.PacketSpec Spec.RecordSpec
-  Proofs.Hoare Proofs.ParserTotal Proofs.ParserInv Proofs.ReadersAgree Proofs.ReadersLabels Proofs.WalkValues Proofs.WalkSkip.
+  Proofs.Hoare Proofs.ParserTotal Proofs.ParserInv Proofs.ReadersAgree Proofs.ReadersLabels Proofs.WalkValues Proofs.WalkSkip Proofs.EdnsFacts.
 
 Theorem C03_skip_name_agrees : forall (p : bytes) (off e : nat),
   check_compressed_name p off = Ok e -> e < length p -> skip_name p off = Ok e.
@@ -96,6 +96,15 @@ Theorem C03_question_cursor : forall p v, bytes_ok p -> parse p = Ok v ->
     q_next v it = Ok None.
 Proof. exact question_cursor_spec. Qed.
 Print Assumptions C03_question_cursor.
+
+Theorem C03_option_cursor : forall p v, bytes_ok p -> parse p = Ok v ->
+  match pp_offset_edns v with
+  | None => walk_opts v = Ok []
+  | Some st => exists e l, opts_read p st e l /\ e <= length p /\ pp_edns_count v = N.of_nat (length l) /\
+                           walk_opts v = Ok l
+  end.
+Proof. exact walk_opts_spec. Qed.
+Print Assumptions C03_option_cursor.
 
 Theorem C03_reading_unique : forall p off l e, records_at p off l e ->
   forall l' e', records_at p off l' e' -> length l = length l' -> l = l' /\ e = e'.
